@@ -92,6 +92,13 @@ def make_overlay(cid, part, workdir):
             replace[os.path.join(REPO, pkg, f)] = os.path.join(VERIF, "harness", pkg, f)
     # instrumented copies of repo sources
     instr = part.get("instrument")
+    if instr and part.get("race"):
+        # free-running pass: goroutines, channel operations and selects stay the real ones (the
+        # scheduler is not active); locks, clocks, seams and call replacements stay as in the
+        # controlled build so that the same harness code compiles
+        instr = json.loads(json.dumps(instr))
+        for fc in instr.get("files", []):
+            fc["conc"] = False
     if instr:
         build_tools()
         outdir = os.path.join(workdir, "instr")
@@ -149,6 +156,14 @@ def run_shard(binpath, part, tier, shard, shards, workdir, only_case=None, seed=
     if only_case is not None:
         env["VERIF_ONLY_CASE"] = only_case
     env.update(part.get("env", {}))
+    if part.get("race"):
+        # free-running race-detector pass: reports go to files the harness reads back itself
+        racelog = os.path.join(workdir, "race-%s-%d" % (part["name"], shard))
+        for f in os.listdir(workdir):
+            if f.startswith(os.path.basename(racelog) + "."):
+                os.remove(os.path.join(workdir, f))
+        env["GORACE"] = "log_path=%s halt_on_error=0 exitcode=0" % racelog
+        env["VERIF_RACELOG"] = racelog
     cmd = [binpath, "-test.run", "^%s$" % part["run"], "-test.timeout", "0", "-test.count", "1"]
     memkb = part.get("mem_kb", 12 * 1024 * 1024)
     sh = "ulimit -v %d; exec \"$@\"" % memkb
@@ -365,7 +380,7 @@ def main():
     for m in merged_parts:
         print("part %-14s evaluations=%d states=%d transitions=%d outcomes=%d nontrivial=%d exhaustive=%s violations=%d %s" % (
             m["part"], m["evaluations"], m["states"], m["transitions"], m["outcomes"], m["distinct_nontrivial"],
-            m["exhaustive"], m["violation_count"], ("caps=" + ",".join(m["caps_hit"])) if m["caps_hit"] else ""))
+            m["exhaustive"], m["violation_count"], ("caps=" + ",".join(m["caps_hit"])[:400]) if m["caps_hit"] else ""))
         if m["evaluations"] > 20 and m["outcomes"] <= 1:
             print("WARNING vacuous part=%s (one outcome from %d cases)" % (m["part"], m["evaluations"]))
     for ln in lines:
